@@ -928,6 +928,9 @@ class Checker:
                 self.fault_classes.add((ctx.phase, tk, self.cbs.get(cid, {}).get("provider"), bool(self.queue), self.rtc, ev["exc"]))
             ctx.fail_phase_set = set(getattr(ctx, "phase_sets", {}).get(ctx.phase, set())) - {cid}
             ctx.pending = set()
+            # siblings already running (gather) finish on their own: their end is masked too
+            self.masked_open = getattr(self, "masked_open", set()) | {(tok, c) for c in ctx.open}
+            ctx.open = set()
             if self.rtc:
                 self._finish_ctx_rtc()
             return
@@ -1006,6 +1009,19 @@ class Checker:
                         continue
                 self.rej("C01.selection", f"guard {gid} evaluated but no candidate of {ev.get('event')} is left")
             self.rej("C02.order", f"guard {gid} evaluated in phase {ctx.phase} of {ctx.event}/{ctx.tok}")
+
+    def on_guard_end(self, ev):
+        """A coroutine guard finished: its candidate's selection phase must still be the current one."""
+        ctx = self.ctx
+        gid, tok = ev["g"], ev.get("tok")
+        self.stats["async_guard_completions"] = self.stats.get("async_guard_completions", 0) + 1
+        ok = (
+            ctx is not None and ctx.tok == tok and not ctx.failing and ctx.phase in ("validators", "cond")
+            and gid in ctx.seen_guards
+        )
+        if not ok:
+            where = f"{ctx.event}/{ctx.tok} phase {ctx.phase}" if ctx is not None else "no event in progress"
+            self.soft("C05.phase-barrier", f"coroutine guard {gid} of event token {tok} completed after its phase had ended (now: {where})")
 
     def on_validator(self, ev):
         ctx = self.ctx
